@@ -270,10 +270,13 @@ theorem bracket_eq {P : List (Resample.Fix α)} {V : List α} {v : α} {r : Nat}
   · rw [if_neg hc, if_neg hc]
 
 theorem fmin_eq_pmin (a b : α) : Py.fmin a b = Resample.pmin a b := rfl
+theorem fmax_eq_pmax (a b : α) : Py.fmax a b = Resample.pmax a b := rfl
 
-/-- the observation the model's `spatialLoop` conses, as a record -/
+/-- the observation the model's `spatialLoop` conses, as a record (time component: `T = min(max(T, t_bwd), t_fwd)`, the model's
+`clampT`) -/
 def newPt (pb pf : Resample.Fix α) (wb wf : α) : Rec α :=
-  (wb * pb.x + wf * pf.x, wb * pb.y + wf * pf.y, wb * pb.z + wf * pf.z, wb * pb.t + wf * pf.t)
+  (wb * pb.x + wf * pf.x, wb * pb.y + wf * pf.y, wb * pb.z + wf * pf.z,
+    Resample.clampT (wb * pb.t + wf * pf.t) pb.t pf.t)
 
 /-! ### main loop `for k in range(1, N + 1)` against `spatialLoop` -/
 
